@@ -212,16 +212,38 @@ func firstFatalLine(errPath string) string {
 	return ""
 }
 
+// FlavoursFor lists the builds a check runs under at a tier: the ones it registers, plus, at the thorough tier, the
+// coverage build (the default build with counters) whose only output is the list of library functions the workload
+// reached, and whatever VERIF_EXTRA_FLAVOUR names.
+func FlavoursFor(p *Prop, tier string) []string {
+	fl := []string{"plain"}
+	if p.Flavours != nil {
+		fl = append([]string{}, p.Flavours(tier)...)
+	}
+	add := func(x string) {
+		for _, f := range fl {
+			if f == x {
+				return
+			}
+		}
+		fl = append(fl, x)
+	}
+	if tier == "thorough" {
+		add("cover")
+	}
+	if x := os.Getenv("VERIF_EXTRA_FLAVOUR"); x != "" {
+		add(x)
+	}
+	return fl
+}
+
 // Orchestrate runs all shards of all flavours, merges the logs, applies the
 // known-findings list, prints the verdict lines and writes the evidence file.
 // It returns the process exit code.
 func Orchestrate(cfg OrchConfig) int {
 	start := time.Now()
 	p := cfg.Prop
-	flavours := []string{"plain"}
-	if p.Flavours != nil {
-		flavours = p.Flavours(cfg.Tier)
-	}
+	flavours := FlavoursFor(p, cfg.Tier)
 	if only := os.Getenv("VERIF_ONLY_FLAVOUR"); only != "" {
 		flavours = []string{only} // debugging aid; evidence then lists only this flavour
 	}
